@@ -28,6 +28,7 @@ type c16Case struct {
 	To    int    `json:"to"`
 	Route string `json:"route"` // engine: variables | results | objects | withobjects
 	Type  string `json:"type"`  // typed: declared item type
+	Sub   bool   `json:"sub,omitempty"` // engine: an embedded sub-process stands between the storing and the reading task
 }
 
 type c16S struct {
@@ -524,7 +525,17 @@ func c16Engine(c *c16Case, env *fw.Env, v *fw.V) {
 	n.Inputs = []string{"o", "wo", "named=DataObject_named", "total=Property_total"}
 	e := g.Add(gen.End, "end", "")
 	g.Connect(s, t, nil)
-	g.Connect(t, n, nil)
+	if c.Sub {
+		// building the sub-process goes over the scope's data locator once more
+		sp := g.Add(gen.Sub, "S", "")
+		is := g.Add(gen.Start, "is", "S")
+		ie := g.Add(gen.End, "ie", "S")
+		g.Connect(is, ie, nil)
+		g.Connect(t, sp, nil)
+		g.Connect(sp, n, nil)
+	} else {
+		g.Connect(t, n, nil)
+	}
 	g.Connect(n, e, nil)
 	// item-aware elements whose id differs from their name: a data object and a property of the process
 	g.Objects = []gen.DataObject{{ID: "wo", Name: "wo"}, {ID: "DataObject_named", Name: "named"}, {ID: "Property_total", Name: "total", Prop: true}}
@@ -843,6 +854,12 @@ func c16Cases(tier string, seed uint64) []fw.Case {
 			c := c16Case{Kind: "engine", Route: route, From: from, To: from + 4}
 			c.Name = fmt.Sprintf("engine/%s/%d", route, from)
 			cs = append(cs, fw.MkCase("engine", &c))
+			if (from/4)%3 == 0 || tier == "thorough" {
+				cc := c
+				cc.Sub = true
+				cc.Name = fmt.Sprintf("engine-sub/%s/%d", route, from)
+				cs = append(cs, fw.MkCase("engine", &cc))
+			}
 		}
 	}
 	cs = append(cs, fw.MkCase("refs", &c16Case{Kind: "refs", Name: "refs"}))
@@ -876,7 +893,7 @@ func init() {
 			v.Nontrivial = true
 			return v
 		},
-		Rule:        "catalogue of Go values (every signed/unsigned width at 0, ±1, min, max with unsigned capped at MaxInt64; floats incl. -0, 5e-324, 1e-9, 1e300, MaxFloat64, float32; strings incl. empty, unicode, quotes, <&>, NUL, 5000 chars, JSON look-alikes; bools; slices, arrays, nested containers to depth 5, byte slices, maps, structs with/without tags, pointers, nil pointers, nil slices/maps, nil) each stored and read back through schema.NewValue, FlowDataLocator, WithVariables, DoWithResults, DoWithObjects, WithDataObjects and compared with its JSON canonical form and item type; every declared item type x every catalogue value through Value.ValueFrom (no panic; matching kinds survive); a task with 200+ olive property/header declarations referencing present paths, absent variables, absent sub-paths under every declared type; two instances with overlapping names; recovered panics and engine-goroutine crashes are violations keyed by the panicking function; distinct = descriptor hash, all non-trivial",
+		Rule:        "catalogue of Go values (every signed/unsigned width at 0, ±1, min, max with unsigned capped at MaxInt64; floats incl. -0, 5e-324, 1e-9, 1e300, MaxFloat64, float32; strings incl. empty, unicode, quotes, <&>, NUL, 5000 chars, JSON look-alikes; bools; slices, arrays, nested containers to depth 5, byte slices, maps, structs with/without tags, pointers, nil pointers, nil slices/maps, nil) each stored and read back through schema.NewValue, FlowDataLocator, WithVariables, DoWithResults, DoWithObjects, WithDataObjects and compared with its JSON canonical form and item type; every declared item type x every catalogue value through Value.ValueFrom (no panic; matching kinds survive); a task with 200+ olive property/header declarations referencing present paths, absent variables, absent sub-paths under every declared type; two instances with overlapping names; recovered panics and engine-goroutine crashes are violations keyed by the panicking function; distinct = descriptor hash, all non-trivial; the engine routes again in a process with an embedded sub-process between the storing and the reading task",
 		Assumptions: []string{"canonical form = encoding/json round trip with top-level integers as int64; a byte slice may come back as base64 string or as array of numbers; nil may read back as nil or an empty value"},
 	})
 }
